@@ -342,6 +342,52 @@ func (p *Prog) gateAppCallee(c *Ctx, f *Func) {
 		}
 		return true
 	})
+	// alternative idiom: comma-ok lookup VersionedPlugins[Atoi(arg)]
+	if sv != nil {
+		var okV, valV2 *types.Var
+		for _, m := range g.Nodes {
+			var lhs []ast.Expr
+			var rhs ast.Expr
+			if as, ok := m.Ast.(*ast.AssignStmt); ok && len(as.Lhs) == 2 && len(as.Rhs) == 1 {
+				lhs, rhs = as.Lhs, as.Rhs[0]
+			}
+			if rhs == nil {
+				continue
+			}
+			if ix, ok := ast.Unparen(rhs).(*ast.IndexExpr); ok && SelField(info, ix.X) == vpF && identObj(info, ix.Index) == sv {
+				valV2, _ = identObj(info, lhs[0]).(*types.Var)
+				okV, _ = identObj(info, lhs[1]).(*types.Var)
+			}
+		}
+		if okV != nil && valV2 != nil {
+			n, bad := 0, ""
+			for _, m := range g.Nodes {
+				rs, ok := m.Ast.(*ast.ReturnStmt)
+				if !ok || len(rs.Results) != 3 || !isNilIdent(info, rs.Results[2]) {
+					continue
+				}
+				n++
+				mm := m
+				if !g.OnlyViaEdge(mm, func(e *Edge) bool {
+					at, isAt := edgeAtom(info, e)
+					return isAt && at.Kind == "bool" && at.True && identObj(info, at.X) == okV
+				}) {
+					bad = "a nil error is returned without the announced version being a key of the offered versions"
+				}
+				if identObj(info, rs.Results[0]) != sv || identObj(info, rs.Results[1]) != valV2 {
+					bad = "the returned version / plugin set are not the looked-up key and its map value"
+				}
+			}
+			if n > 0 {
+				if bad == "" {
+					c.R.Hold("R-GATE", p.Pos(f.Node()), f.Name, "G-app/callee", "success only when Atoi(arg) is a key of ClientConfig.VersionedPlugins (comma-ok lookup), returning that key and its value", true)
+				} else {
+					c.R.Violate("R-GATE", p.Pos(f.Node()), f.Name, "G-app/callee", bad, nil)
+				}
+				return
+			}
+		}
+	}
 	if sv == nil || keyV == nil {
 		c.R.Undecided("R-GATE", f.Name, "G-app/callee", "Atoi(param) or range over ClientConfig.VersionedPlugins not found")
 		return
@@ -393,7 +439,50 @@ func (p *Prog) gateProto(c *Ctx, si *startInfo) {
 		return true
 	})
 	if elemV == nil {
-		c.R.Violate("R-GATE", p.Pos(f.Node()), f.Name, "G-proto", "Start no longer ranges over ClientConfig.AllowedProtocols", nil)
+		// alternative idiom: found := slices.Contains(AllowedProtocols, c.protocol)
+		var flag2 *types.Var
+		for _, call := range f.Calls() {
+			nm := p.CalleeName(f, call)
+			if (nm == "slices.Contains" || nm == "golang.org/x/exp/slices.Contains") && len(call.Args) == 2 && SelField(info, call.Args[0]) == apF && SelField(info, call.Args[1]) == protoF {
+				flag2 = assignedVar(p, info, call)
+				if flag2 == nil {
+					// used directly as a condition
+					n := g.NodeOf(call)
+					if n != nil && si.gatePass(func(e *Edge) bool {
+						at, isAt := edgeAtom(info, e)
+						return isAt && at.Kind == "call" && at.True && at.X == ast.Expr(call)
+					}) {
+						c.R.Hold("R-GATE", p.Pos(si.commit.Ast), f.Name, "G-proto", "the commit is reachable only through slices.Contains(AllowedProtocols, Client.protocol)", true)
+						return
+					}
+				}
+			}
+		}
+		if flag2 != nil {
+			pass := si.gatePass(func(e *Edge) bool {
+				at, isAt := edgeAtom(info, e)
+				return isAt && at.Kind == "bool" && at.True && identObj(info, at.X) == flag2
+			})
+			// the flag has no other definition
+			ndef := 0
+			ast.Inspect(f.Body, func(x ast.Node) bool {
+				if as, ok := x.(*ast.AssignStmt); ok {
+					for _, l := range as.Lhs {
+						if identObj(info, l) == flag2 {
+							ndef++
+						}
+					}
+				}
+				return true
+			})
+			if pass && ndef == 1 && p.protoStoresOK(si) {
+				c.R.Hold("R-GATE", p.Pos(si.commit.Ast), f.Name, "G-proto", "the commit is reachable only with slices.Contains(AllowedProtocols, Client.protocol) true; Client.protocol is field 5 or the net/rpc default", true)
+			} else {
+				c.R.Violate("R-GATE", p.Pos(si.commit.Ast), f.Name, "G-proto", "a handshake line can be accepted although its protocol is not in AllowedProtocols", nil)
+			}
+			return
+		}
+		c.R.Violate("R-GATE", p.Pos(f.Node()), f.Name, "G-proto", "Start no longer tests the announced protocol for membership in ClientConfig.AllowedProtocols", nil)
 		return
 	}
 	isEq := func(e *Edge) bool {
@@ -734,4 +823,31 @@ func ruleGateExcl(c *Ctx) {
 	} else {
 		c.R.Violate("R-SENT", p.Pos(f.Node()), f.Name, "ErrSecureConfigAndReattach returned", "the dedicated error for SecureConfig with Reattach is no longer returned", nil)
 	}
+}
+
+// protoStoresOK: Client.protocol is stored only from handshake field 5 or the net/rpc default.
+func (p *Prog) protoStoresOK(si *startInfo) bool {
+	protoF := p.FieldObj(modPath, "Client", "protocol")
+	ok, n := true, 0
+	for _, m := range si.g.Nodes {
+		as, isAs := m.Ast.(*ast.AssignStmt)
+		if !isAs {
+			continue
+		}
+		for i, l := range as.Lhs {
+			if SelField(si.info, l) != protoF || i >= len(as.Rhs) {
+				continue
+			}
+			n++
+			r := ast.Unparen(as.Rhs[i])
+			if s, isS := constString(si.info, r); isS && s == "netrpc" {
+				continue
+			}
+			if conv, isC := r.(*ast.CallExpr); isC && len(conv.Args) == 1 && si.isPartsIdx(conv.Args[0], 4) {
+				continue
+			}
+			ok = false
+		}
+	}
+	return ok && n >= 1
 }
